@@ -15,8 +15,8 @@
 (*  panic {t, msg} | deadlock {where} | end {pending, qlen, done} | endx    *)
 (***************************************************************************)
 EXTENDS M3Reporter, Json
-VARIABLES l, ids, nrep, cfgv, sentD, closerNames, bad
-tvars == <<l, ids, nrep, cfgv, sentD, closerNames, bad>>
+VARIABLES l, ids, nrep, cfgv, sentD, closerNames, bad, occ, lastIdx
+tvars == <<l, ids, nrep, cfgv, sentD, closerNames, bad, occ, lastIdx>>
 TraceLog == ndJsonDeserialize("trace.ndjson")
 Fail(c) == PrintT(<<"FAIL", l, c>>)
 
@@ -25,7 +25,7 @@ Key(r) == <<r.name, r.v>>
 Dummy == [t \in Threads |-> "fin"]
 
 TInit ==
-  /\ l = 1 /\ ids = <<>> /\ nrep = <<>> /\ cfgv = [max_packet |-> 0, dests |-> 1] /\ sentD = <<>> /\ closerNames = {} /\ bad = FALSE
+  /\ l = 1 /\ ids = <<>> /\ nrep = <<>> /\ cfgv = [max_packet |-> 0, dests |-> 1] /\ sentD = <<>> /\ closerNames = {} /\ bad = FALSE /\ occ = <<>> /\ lastIdx = <<>>
   /\ pc = Dummy /\ idx = [t \in Threads |-> 1] /\ done = FALSE /\ pending = 0 /\ doneClosed = FALSE /\ metClosed = FALSE
   /\ q = <<>> /\ mets = <<>> /\ bytes = 0 /\ sent = <<>> /\ now = 1 /\ clk = 1
   /\ panicked = FALSE /\ closeRes = <<>> /\ called = {} /\ returned = {} /\ retAtClose = {} /\ closeCalled = FALSE
@@ -33,21 +33,22 @@ TInit ==
 
 Unobs == UNCHANGED <<pc, idx, done, pending, doneClosed, metClosed, q, mets, bytes, now, clk, hold, inner>>
 
-(* the observable invariants of M3Reporter.tla, by name *)
+(* The observable invariants of M3Reporter.tla, evaluated incrementally: `sent` itself is not accumulated (a
+   long history would make every evaluation quadratic); occ[id] counts the occurrences of a report in what
+   destination 1 received, lastIdx[t] is the highest report index of thread t seen so far. *)
+OccOf(id) == IF id \in DOMAIN occ THEN occ[id] ELSE 0
 JudgeState ==
   /\ IF ~NoSendOnClosedQueue' THEN Fail("NoSendOnClosedQueue") ELSE TRUE
   /\ IF Cardinality({c \in DOMAIN closeRes' : closeRes'[c] = "ok"}) > 1 THEN Fail("SecondCloseErrors") ELSE TRUE
   /\ IF ~AfterCloseNoop' THEN Fail("AfterCloseNoop") ELSE TRUE
-  /\ IF ~AtMostOnce' THEN Fail("AtMostOnce") ELSE TRUE
-  /\ IF ~ReturnedBeforeCloseDelivered' THEN Fail("ReturnedBeforeCloseDelivered") ELSE TRUE
-  /\ IF ~TimestampBracket' THEN Fail("TimestampBracket") ELSE TRUE
-  /\ IF ~OrderPreserved' THEN Fail("OrderPreserved") ELSE TRUE
+JudgeClose ==
+  IF \E id \in retAtClose : OccOf(id) # 1 THEN Fail("ReturnedBeforeCloseDelivered") ELSE TRUE
 
 TNext ==
   /\ l <= Len(TraceLog)
   /\ LET r == TraceLog[l] IN
      CASE r.e = "scn" ->
-            /\ ids' = <<>> /\ nrep' = <<>> /\ sentD' = [d \in 1..r.dests |-> <<>>] /\ closerNames' = {} /\ bad' = FALSE
+            /\ ids' = <<>> /\ nrep' = <<>> /\ sentD' = [d \in 1..r.dests |-> <<>>] /\ closerNames' = {} /\ bad' = FALSE /\ occ' = <<>> /\ lastIdx' = <<>>
             /\ cfgv' = [max_packet |-> IF r.max_packet = 0 THEN 1440 ELSE r.max_packet, dests |-> r.dests]
             /\ sent' = <<>> /\ panicked' = FALSE /\ closeRes' = <<>> /\ called' = {} /\ returned' = {} /\ retAtClose' = {}
             /\ closeCalled' = FALSE /\ closeReturned' = FALSE /\ lateEnq' = {} /\ Unobs
@@ -58,50 +59,62 @@ TNext ==
                /\ ids' = [x \in DOMAIN ids \cup {Key(r)} |-> IF x = Key(r) THEN [id |-> id, kind |-> r.kind, tags |-> Pairs(r.tags), late |-> closeReturned] ELSE ids[x]]
                /\ called' = called \cup {id}
                /\ IF Key(r) \in DOMAIN ids THEN Fail("Harness:duplicate-report-key") ELSE TRUE
-               /\ UNCHANGED <<cfgv, sentD, closerNames, bad, sent, panicked, closeRes, returned, retAtClose, closeCalled, closeReturned, lateEnq>> /\ Unobs
+               /\ UNCHANGED <<cfgv, sentD, closerNames, bad, occ, lastIdx, sent, panicked, closeRes, returned, retAtClose, closeCalled, closeReturned, lateEnq>> /\ Unobs
        [] r.e = "ret" /\ r.op = "report" ->
             /\ returned' = returned \cup {ids[Key(r)].id}
-            /\ UNCHANGED <<ids, nrep, cfgv, sentD, closerNames, bad, sent, panicked, closeRes, called, retAtClose, closeCalled, closeReturned, lateEnq>> /\ Unobs
+            /\ UNCHANGED <<ids, nrep, cfgv, sentD, closerNames, bad, occ, lastIdx, sent, panicked, closeRes, called, retAtClose, closeCalled, closeReturned, lateEnq>> /\ Unobs
        [] r.e = "call" /\ r.op = "close" ->
             /\ IF ~closeCalled THEN retAtClose' = returned /\ closeCalled' = TRUE ELSE UNCHANGED <<retAtClose, closeCalled>>
-            /\ UNCHANGED <<ids, nrep, cfgv, sentD, closerNames, bad, sent, panicked, closeRes, called, returned, closeReturned, lateEnq>> /\ Unobs
+            /\ UNCHANGED <<ids, nrep, cfgv, sentD, closerNames, bad, occ, lastIdx, sent, panicked, closeRes, called, returned, closeReturned, lateEnq>> /\ Unobs
        [] r.e = "ret" /\ r.op = "close" ->
             /\ closeRes' = [x \in DOMAIN closeRes \cup {r.t} |-> IF x = r.t THEN (IF r.err THEN "err" ELSE "ok") ELSE closeRes[x]]
             /\ closeReturned' = (closeReturned \/ ~r.err)
             /\ IF r.alive THEN Fail("NoLeak") ELSE TRUE
             /\ IF ~r.err /\ \E d \in 2..cfgv.dests : sentD[d] # sentD[1] THEN Fail("EveryDestinationGetsEveryBatch") ELSE TRUE
-            /\ UNCHANGED <<ids, nrep, cfgv, sentD, closerNames, bad, sent, panicked, called, returned, retAtClose, closeCalled, lateEnq>> /\ Unobs
+            /\ IF ~r.err THEN JudgeClose ELSE TRUE
+            /\ UNCHANGED <<ids, nrep, cfgv, sentD, closerNames, bad, occ, lastIdx, sent, panicked, called, returned, retAtClose, closeCalled, lateEnq>> /\ Unobs
             /\ JudgeState
        [] r.e = "emit" ->
-            LET known == {i \in 1..Len(r.mets) : <<r.mets[i].name, r.mets[i].v>> \in DOMAIN ids}
-                item(i) == LET k == <<r.mets[i].name, r.mets[i].v>> IN
-                           [set |-> TRUE, id |-> ids[k].id, size |-> 0,
-                            ts |-> CASE r.mets[i].ts = "ok" -> 1 [] r.mets[i].ts = "before-construction" -> 0 [] OTHER -> 2, at |-> 1]
-                batch == [i \in 1..Len(r.mets) |-> IF i \in known THEN item(i) ELSE [set |-> TRUE, id |-> <<"?", "rep", l * 1000 + i>>, size |-> 0, ts |-> 1, at |-> 1]]
-            IN /\ sentD' = [sentD EXCEPT ![r.dest] = IF batch = <<>> THEN @ ELSE Append(@, batch)]
-               /\ sent' = IF r.dest = 1 /\ batch # <<>> THEN Append(sent, batch) ELSE sent
-               /\ lateEnq' = lateEnq \cup {ids[<<r.mets[i].name, r.mets[i].v>>].id : i \in {j \in known : ids[<<r.mets[j].name, r.mets[j].v>>].late}}
+            LET K(i) == <<r.mets[i].name, r.mets[i].v>>
+                known == {i \in 1..Len(r.mets) : K(i) \in DOMAIN ids}
+                bids == [i \in 1..Len(r.mets) |-> IF i \in known THEN ids[K(i)].id ELSE <<"?", "rep", l * 1000 + i>>]
+                newIds == {bids[i] : i \in known}
+                cnt(id) == Cardinality({i \in known : bids[i] = id})
+            IN /\ sentD' = [sentD EXCEPT ![r.dest] = IF Len(r.mets) = 0 THEN @ ELSE Append(@, bids)]
+               /\ sent' = sent
+               /\ occ' = IF r.dest = 1 THEN [x \in DOMAIN occ \cup newIds |-> OccOf(x) + (IF x \in newIds THEN cnt(x) ELSE 0)] ELSE occ
+               /\ lastIdx' = IF r.dest = 1
+                             THEN [t \in DOMAIN lastIdx \cup {bids[i][1] : i \in known} |->
+                                     LET here == {bids[i][3] : i \in {j \in known : bids[j][1] = t}}
+                                         old == IF t \in DOMAIN lastIdx THEN lastIdx[t] ELSE 0
+                                     IN IF here = {} THEN old ELSE LET m == CHOOSE x \in here : \A y \in here : y <= x IN IF m > old THEN m ELSE old]
+                             ELSE lastIdx
+               /\ lateEnq' = lateEnq \cup {ids[K(i)].id : i \in {j \in known : ids[K(j)].late}}
                /\ IF ~r.ok THEN Fail("OneMessagePerDatagram")
                   ELSE IF r.len > cfgv.max_packet THEN Fail("DatagramWithinLimit")
                   ELSE IF ~r.common_ok THEN Fail("CommonTagsEverywhere")
                   ELSE IF known # 1..Len(r.mets) THEN Fail("Intact:metric-nobody-reported")
-                  ELSE IF \E i \in known : ids[<<r.mets[i].name, r.mets[i].v>>].kind # r.mets[i].kind THEN Fail("Intact:kind")
-                  ELSE IF \E i \in known : ids[<<r.mets[i].name, r.mets[i].v>>].tags # Pairs(r.mets[i].tags) THEN Fail("Intact:tags")
+                  ELSE IF \E i \in known : ids[K(i)].kind # r.mets[i].kind THEN Fail("Intact:kind")
+                  ELSE IF \E i \in known : ids[K(i)].tags # Pairs(r.mets[i].tags) THEN Fail("Intact:tags")
                   ELSE IF closeReturned THEN Fail("CloseDrains:emit-after-Close-returned")
+                  ELSE IF r.dest = 1 /\ \E i \in known : OccOf(bids[i]) + cnt(bids[i]) > 1 THEN Fail("AtMostOnce")
+                  ELSE IF \E i \in known : r.mets[i].ts # "ok" THEN Fail("TimestampBracket:" \o (CHOOSE x \in {r.mets[i].ts : i \in known} : x # "ok"))
+                  ELSE IF r.dest = 1 /\ \E i, j \in known : i < j /\ bids[i][1] = bids[j][1] /\ bids[i][3] > bids[j][3] THEN Fail("OrderPreserved")
+                  ELSE IF r.dest = 1 /\ \E i \in known : bids[i][1] \in DOMAIN lastIdx /\ bids[i][3] < lastIdx[bids[i][1]] THEN Fail("OrderPreserved")
                   ELSE TRUE
                /\ UNCHANGED <<ids, nrep, cfgv, closerNames, bad, panicked, closeRes, called, returned, retAtClose, closeCalled, closeReturned>> /\ Unobs
                /\ JudgeState
        [] r.e = "panic" ->
             /\ panicked' = TRUE /\ bad' = TRUE
-            /\ UNCHANGED <<ids, nrep, cfgv, sentD, closerNames, sent, closeRes, called, returned, retAtClose, closeCalled, closeReturned, lateEnq>> /\ Unobs
+            /\ UNCHANGED <<ids, nrep, cfgv, sentD, closerNames, occ, lastIdx, sent, closeRes, called, returned, retAtClose, closeCalled, closeReturned, lateEnq>> /\ Unobs
             /\ JudgeState
        [] r.e = "deadlock" ->
             /\ bad' = TRUE /\ Fail("NoDeadlock")
-            /\ UNCHANGED <<ids, nrep, cfgv, sentD, closerNames, sent, panicked, closeRes, called, returned, retAtClose, closeCalled, closeReturned, lateEnq>> /\ Unobs
+            /\ UNCHANGED <<ids, nrep, cfgv, sentD, closerNames, occ, lastIdx, sent, panicked, closeRes, called, returned, retAtClose, closeCalled, closeReturned, lateEnq>> /\ Unobs
        [] r.e = "end" ->
             /\ IF ~bad /\ r.pending # 0 THEN Fail("PendingBalanced") ELSE TRUE
-            /\ UNCHANGED <<ids, nrep, cfgv, sentD, closerNames, bad, sent, panicked, closeRes, called, returned, retAtClose, closeCalled, closeReturned, lateEnq>> /\ Unobs
-       [] OTHER -> UNCHANGED <<ids, nrep, cfgv, sentD, closerNames, bad, sent, panicked, closeRes, called, returned, retAtClose, closeCalled, closeReturned, lateEnq>> /\ Unobs
+            /\ UNCHANGED <<ids, nrep, cfgv, sentD, closerNames, bad, occ, lastIdx, sent, panicked, closeRes, called, returned, retAtClose, closeCalled, closeReturned, lateEnq>> /\ Unobs
+       [] OTHER -> UNCHANGED <<ids, nrep, cfgv, sentD, closerNames, bad, occ, lastIdx, sent, panicked, closeRes, called, returned, retAtClose, closeCalled, closeReturned, lateEnq>> /\ Unobs
   /\ l' = l + 1
 TraceSpec == TInit /\ [][TNext]_<<vars, tvars>>
 =============================================================================
